@@ -12,7 +12,7 @@ from ..sds_parser import SdsDecl, SdsModule, SdsType
 
 BUILTIN_TARGETS = {"Int", "String", "Boolean", "Float", "Nothing", "Any", "List", "Map", "Set", "Tuple"}
 
-POSITIONS = ["param", "result", "class_attr", "inst_attr", "superclass", "list_arg", "union_none", "union_int", "callable_param", "gen_arg", "dict_value", "ctor_param", "inherited_param"]
+POSITIONS = ["param", "result", "class_attr", "inst_attr", "superclass", "list_arg", "union_none", "union_int", "callable_param", "gen_arg", "dict_value", "ctor_param", "inherited_param", "reexported_param"]
 
 
 def use(pos: str, ref: str, T: str) -> str:  # noqa: N803
@@ -41,6 +41,10 @@ def use(pos: str, ref: str, T: str) -> str:  # noqa: N803
         return f"def f{T}(p: Gen{T}[{ref}]) -> None:\n    ...\n"
     if pos == "dict_value":
         return f"def f{T}() -> dict[str, {ref}]:\n    ...\n"
+    if pos == "reexported_param":
+        # the class that mentions the type is itself re-exported by its package (unit_files adds the import to __init__):
+        # its stub is written as a re-export file of the package, which needs the import as well
+        return f"class R{T}:\n    def rm{T}(self, p: {ref}) -> None:\n        ...\n"
     if pos == "inherited_param":
         # a private class whose method mentions the type; shown in a public subclass here and (unit_files) in another module
         return f"class _IB{T}:\n    def im{T}(self, p: {ref}) -> None:\n        ...\n\n\nclass K{T}(_IB{T}):\n    pass\n"
@@ -78,6 +82,8 @@ def targets(T: str) -> dict[str, tuple[dict[str, str], str, str, str]]:  # noqa:
     # a package path with a PRIVATE segment that is not the first one (naming conversion treats the underscore specially)
     t["reexp_by_private_subpkg"] = ({f"_core{T}/__init__.py": f"from .engine{T} import {B}\n", f"_core{T}/engine{T}.py": c}, f"from {PKG}.u{T}._core{T} import {B}\n", B, f"a{T}.py")
     t["lib_private_segment"] = ({}, "from concurrent.futures._base import Executor\n", "Executor", f"a{T}.py")
+    # a class whose name the naming conversion changes (declaration, import and use must agree)
+    t["sibling_snake_case_name"] = ({f"b{T}.py": CLS.format(n=f"snake_b{T}", T=T)}, f"from .b{T} import snake_b{T}\n", f"snake_b{T}", f"a{T}.py")
     t["private_not_reexported"] = ({f"_b{T}.py": c}, f"from ._b{T} import {B}\n", B, f"a{T}.py")
     t["private_class"] = ({f"b{T}.py": CLS.format(n="_" + B, T=T)}, f"from .b{T} import _{B}\n", f"_{B}", f"a{T}.py")
     t["nested_other_module"] = ({f"b{T}.py": f"class O{T}:\n    class I{T}:\n        def m{T}(self) -> int:\n            return 1\n"}, f"from .b{T} import O{T}\n", f"O{T}.I{T}", f"a{T}.py")
@@ -108,6 +114,9 @@ def unit_files(T: str, tname: str, positions: list[str], second: tuple[str, str]
     parts = []
     for k, pos in enumerate(positions):
         parts.append(use(pos, ref, f"{T}{chr(97 + k)}"))
+        if pos == "reexported_param" and user.count("/") == 0:
+            Tk = f"{T}{chr(97 + k)}"  # noqa: N806
+            files[f"{root}/__init__.py"] = files.get(f"{root}/__init__.py", "") + f"from .{user[:-3]} import R{Tk}\n"
         if pos == "inherited_param":
             Tk = f"{T}{chr(97 + k)}"  # noqa: N806
             udir, umod = ("/" + user).rsplit("/", 1)
@@ -212,7 +221,7 @@ def run(rep: Report, tier: str, seed: int) -> None:
             units.append((f"{t1}:{p1}+{t2}:{p2}", f"{t1}:{p1}|{t2}:{p2}", unit_files(T, t1, [p1], (t2, p2))))
     rep.rule = (
         f"{len(TARGET_NAMES)} placements of the referenced class (same module, nested, sibling module/package, parent package, private module re-exported by name/alias/star and used via package or module path, "
-        "not re-exported, private class, nested in another module, enum, same short name in two modules, 4 other-library forms, 6 unmapped builtins) x 13 reference positions (the 13th: parameter of a method of a private class that public subclasses in two modules show), one reference per tree; "
+        "not re-exported, private class, nested in another module, enum, same short name in two modules, 4 other-library forms, 6 unmapped builtins) x 14 reference positions (the 14th: parameter of a method of a class that its package re-exports; the 13th: parameter of a method of a private class that public subclasses in two modules show), one reference per tree; "
         f"ordered pairs of {len(pair_targets)} placements in one user module; both naming settings; oracle over the complete stub set of each run; distinct = distinct (unit label, naming)"
     )
 
